@@ -366,9 +366,16 @@ def build(run):
         nseeds = 4 if run.tier == "quick" else 16
         code = ("import warnings, json, sys; warnings.simplefilter('ignore'); import ufv.opq; from ufv import sigforms as S\n"
                 "out = {}\n"
+                "from ufl.algorithms.domain_analysis import group_form_integrals\n"
                 "for nm, b in S.builders():\n"
                 "    S.set_counters({})\n"
-                "    out[nm] = b().signature()\n"
+                "    F = b()\n"
+                "    out[nm] = F.signature()\n"
+                "    try:\n"
+                "        G = group_form_integrals(F, F.ufl_domains())\n"
+                "        out[nm + ' | grouped (group_form_integrals)'] = G.signature() + ' ' + repr([str(i.integrand())[:60] for i in G.integrals()])\n"
+                "    except Exception as ex:\n"
+                "        out[nm + ' | grouped (group_form_integrals)'] = 'refused ' + type(ex).__name__\n"
                 "print(json.dumps(out))\n")
         ref = None
         for sd in range(nseeds):
